@@ -61,4 +61,27 @@ let handle (toks : Stdlib.String.t list) : Stdlib.String.t =
         | "pause" -> EPause | "append" -> EAppend (r 4) | _ -> EOwn [Npos (XO XH); Npos (Conv.pos_of_int 7); Npos XH]) in
       let (_, f') = run (fun b -> b) bytes_eqb (Conv.z_of_int 524288) [] toy_app Repaired (l, f) (pre @ [e]) in
       (match f'.f_ses with None -> "none" | Some _ -> "some")
+  (* stale_attempt <proved|norecheck> <follower appendonly 0|1> : Model/FollowGen.v on the schedule "F follows A and catches up;
+     the connection drops, the reconnect attempt of generation 1 is held inside its handshake; FOLLOW B, generation 2 catches
+     up with B; A's SERVER reply is let through and generation 1 goes on": does generation 1 get as far as sending AOF <pos>
+     to A (aof=1) or does it end in followCheckSome (aof=0), and is the follower's log / dataset / aofsz still B's copy?
+     proved = the configuration of the theorems (c06g_guards_from_source), norecheck = without the test in followCheckSome *)
+  | ["stale_attempt"; which; aof] ->
+      let cfg = (match which with
+        | "norecheck" -> { c_top = true; c_check = false; c_cmd = true; c_aofg = false; c_flagg = false }
+        | _ -> proved_cfg) in
+      let aofb = (aof = "1") in
+      let r k = [Npos XH; Npos (Conv.pos_of_int k); Npos XH; Npos XH] in
+      let la = [r 7; r 8] and lb = [r 5; r 6] in
+      let run w es = grun (fun b -> b) bytes_eqb (Conv.z_of_int 524288) [] toy_app cfg aofb proved_ops w es in
+      let w0 = { w_data = { d_file = []; d_mem = []; d_aofsz = Z0 }; w_cup = false; w_cur = O; w_atts = [] } in
+      let i0 = O and i1 = S O in
+      let pre = [GFollow; GTopCheck i0; GClear i0; GServer (i0, la); GCheck (i0, la); GAof (i0, la); GDeliver i0; GDeliver i0; GFlag i0;
+                 GFail i0; GTopCheck i0; GClear i0;
+                 GFollow; GTopCheck i1; GClear i1; GServer (i1, lb); GCheck (i1, lb); GAof (i1, lb); GDeliver i1; GDeliver i1; GFlag i1] in
+      let w1 = run w0 pre in
+      let w2 = run w1 [GServer (i0, la); GCheck (i0, la)] in
+      let sent = (match phase_of w2 i0 with Some (PChecked (_, _)) -> true | _ -> false) in
+      Printf.sprintf "aof=%d data=%s caught_up=%s" (if sent then 1 else 0) (if w2.w_data = w1.w_data then "kept" else "changed")
+        (Conv.bool_str w2.w_cup)
   | _ -> "?unknown"
